@@ -54,6 +54,14 @@ def r2_r5_routing(ck, cx):
             if bc:
                 ck.ob('R2', f.qn, 'broadcast produces no response', fp.send_calls == 0 and not fp.writes,
                       detail='broadcast-sends %d' % fp.send_calls, loc=cx.floc(f), message='%s sends a response to a broadcast' % fe[0])
+                # every iteration of the broadcast loop executes the request: a path that enters the loop and leaves the
+                # iteration without execute (a `continue` / guard on the loop variable) skips a hosted unit
+                entered = any(ev.kind == 'loop' and ev.a == 'enter' and ev.frame.fid == 0 for ev in fp.path.ev)
+                if entered and fp.handler is None and not (fp.exit and fp.exit[0] == 'exc'):
+                    ck.ob('R2', f.qn, 'broadcast loop executes the request for every unit it iterates', bool(fp.exec_calls),
+                          detail='broadcast-iteration-skips-unit', loc=cx.floc(f),
+                          message='%s: an iteration of the broadcast loop can end without executing the request (conditions: %s): a hosted unit is skipped'
+                                  % (fe[0], [c for c in fp.flags.get('other', [])][:3]))
                 if fp.exec_calls:
                     ok = fp.exec_in_loop and fp.loop_iter in CONTEXT_SLAVES
                     ck.ob('R2', f.qn, 'broadcast iterates context.slaves()', ok, detail='broadcast-iteration %s' % fp.loop_iter, loc=cx.floc(f))
